@@ -8,15 +8,29 @@ from props.netcommon import Rec, mk_packet
 PROPERTY = 'C11'
 
 
-def _source(env, Packet, dev, n, sort, entries, bursts=None):
+def _source(env, Packet, dev, n, sort, entries, bursts=None, twin=None):
     def source():
         for k in range(n):
             if not (bursts and bursts[k]):
                 yield env.timeout(sym_num('g%d' % k, sort, 0))
-            pkt = mk_packet(Packet, env.now, sym_int('s%d' % k, 1), k)
+            size = sym_int('s%d' % k, 1)
+            pkt = mk_packet(Packet, env.now, size, k)
             entries.append((pkt, env.now))
             dev.put(pkt)
+            if twin is not None:
+                # a second shaper with the same parameters in the same environment gets a copy of every packet
+                twin.put(mk_packet(Packet, env.now, size, 1000 + k))
     return source
+
+
+def _same(rec, twin_rec):
+    a = [(p.packet_id, t, getattr(p, 'color', None)) for p, t in rec.log]
+    b = [(p.packet_id - 1000, t, getattr(p, 'color', None)) for p, t in twin_rec.log]
+    check('c11.instances-independent', [(x[0], x[2]) for x in a] == [(x[0], x[2]) for x in b], (a, b))
+    if len(a) == len(b):
+        for x, y in zip(a, b):
+            check('c11.instances-independent', eq(x[1], y[1]), x[0])
+    cover('two-instances')
 
 
 def h_tb(cfg):
@@ -29,7 +43,12 @@ def h_tb(cfg):
     rec = Rec(env)
     tb.out = rec
     entries = []
-    env.process(_source(env, Packet, tb, n, sort, entries, cfg.get('burst'))())
+    twin = None
+    if cfg.get('twin'):
+        twin = TokenBucket(env, rate, bucket, peak=peak)
+        twin_rec = Rec(env)
+        twin.out = twin_rec
+    env.process(_source(env, Packet, tb, n, sort, entries, cfg.get('burst'), twin)())
     try:
         env.run()
     except Exception as ex:  # noqa
@@ -38,6 +57,8 @@ def h_tb(cfg):
     check('c11.nothing-lost-fifo', len(rec.log) == n and all(a is b for (a, _), (b, _) in zip(rec.log, entries)))
     if len(rec.log) != n:
         return
+    if twin is not None:
+        _same(rec, twin_rec)
     B = bucket          # tokens (bytes) right after the previous debit
     t_prev = 0          # previous debit instant (bucket initially full at t=0)
     out_prev = None
@@ -85,7 +106,12 @@ def h_trtb(cfg):
     rec = Rec(env, on_put=on_dep)
     tb.out = rec
     entries = []
-    env.process(_source(env, Packet, tb, n, sort, entries, cfg.get('burst'))())
+    twin = None
+    if cfg.get('twin'):
+        twin = TwoRateTokenBucket(env, cir, cbs, pir, pbs)
+        twin_rec = Rec(env)
+        twin.out = twin_rec
+    env.process(_source(env, Packet, tb, n, sort, entries, cfg.get('burst'), twin)())
     try:
         env.run()
     except Exception as ex:  # noqa
@@ -94,6 +120,8 @@ def h_trtb(cfg):
     check('c11.nothing-lost-fifo', len(rec.log) == n and all(a is b for (a, _), (b, _) in zip(rec.log, entries)))
     if len(rec.log) != n:
         return
+    if twin is not None:
+        _same(rec, twin_rec)
     srate, sbucket = (pir, pbs) if pir else (cir, cbs)
     B = sbucket
     t_prev = 0
@@ -162,6 +190,9 @@ def jobs(tier, seed):
                        'cfg': {'cir': 8, 'cbs': 4, 'pir': pir, 'pbs': pbs, 'n': n, 'sorts': sort}})
     js.append({'harness': 'trtb', 'weight': 5,
                'cfg': {'cir': 8, 'cbs': 4, 'pir': 16, 'pbs': 6, 'n': n, 'sorts': 'int', 'burst': [0] + [1] * (n - 1)}})
+    # two shapers in one environment
+    js.append({'harness': 'tb', 'weight': 10, 'cfg': {'rate': 8, 'bucket': 4, 'peak': 64, 'n': 3, 'sorts': 'int', 'twin': True}})
+    js.append({'harness': 'trtb', 'weight': 10, 'cfg': {'cir': 8, 'cbs': 4, 'pir': 16, 'pbs': 6, 'n': 3, 'sorts': 'int', 'twin': True}})
     # longer workloads, few timing variables: two bursts of three
     m = 6 if tier == 'quick' else 7
     js.append({'harness': 'tb', 'weight': 40, 'opts': {'max_paths': 20000},
@@ -177,7 +208,7 @@ META = {
     'rule': 'one case = one feasible path of a shaper workload (sizes incl. > bucket, gaps incl. long idle, symbolic)',
     'required_labels': ['c11.release-instant', 'c11.conformance', 'c11.peak-spacing', 'c11.tr-release-instant',
                         'c11.tr-colour', 'c11.tr-green-conforms'],
-    'required_covers': ['nontrivial', 'green', 'yellow', 'red'],
+    'required_covers': ['nontrivial', 'green', 'yellow', 'red', 'two-instances'],
     'bounds': {'quick': 'n=3 packets; (rate,bucket) in {(8,4),(64,16)}, peak in {None,64}; two-rate: CIR 8, CBS 4, (PIR,PBS) in {None,(16,6),(8,3)}; sizes Int>=1, gaps>=0 unbounded',
                'thorough': 'n=4'},
     'assumptions': ['two-rate green/yellow decision uses the public current_bucket_commit/update_time read at the previous '
